@@ -111,20 +111,29 @@ func c13Stack(r *eng.Run) {
 	wire := NewPipe(r, nil)
 	var sms wsflate.MessageState
 	ww := wsutil.NewWriterSize(wire, wst, ws.OpBinary, size)
-	ww.SetExtensions(&sms)
+	// The application's own list of extensions, spread into SetExtensions
+	// every time (the library is handed the very slice).
+	exts := []wsutil.SendExtension{&sms}
+	ww.SetExtensions(exts...)
+	// A gap with a hundred and more control frames in it (legal; a reader
+	// that reports "nothing read, no error" per control frame meets the limit
+	// buffered readers put on such answers).
+	manyPings := r.T.Chance(sim.LCtrl, 1, 24)
+	// The writer re-armed for every message (Reset detaches the extensions).
+	perMsgReset := r.T.Chance(sim.LHist, 1, 4)
 	if r.T.Chance(sim.LHist, 1, 6) {
 		// An earlier life of the same writer: a compressed message that was
 		// given up after a fragment had gone out (to another destination),
 		// then Reset, which detaches the extensions; they are attached again.
 		old := NewPipe(r, nil)
 		ww.Reset(old, wst, ws.OpBinary)
-		ww.SetExtensions(&sms)
+		ww.SetExtensions(exts...)
 		sms.SetCompressed(true)
 		ww.Write(patBytes(77, 0, 1+r.T.Int(sim.LLen, 2*size+2)))
 		ww.FlushFragment()
 		ww.Write(patBytes(78, 0, r.T.Int(sim.LLen, size+1)))
 		ww.Reset(wire, wst, ws.OpBinary)
-		ww.SetExtensions(&sms)
+		ww.SetExtensions(exts...)
 		r.Probe("writer_reset_after_abandoned_fragmented_message")
 	}
 	resetOp := r.T.Chance(sim.LHist, 1, 3) // the application announces every message with ResetOp (keeps extensions, as documented)
@@ -146,7 +155,15 @@ func c13Stack(r *eng.Run) {
 		}
 		pings = append(pings, pl)
 	}
-	for _, m := range msgs {
+	for mi, m := range msgs {
+		if perMsgReset && mi > 0 {
+			ww.Reset(wire, wst, ws.OpBinary)
+			if len(exts) != 1 || exts[0] != wsutil.SendExtension(&sms) {
+				r.FailProp("C17", "caller_slice_modified", "Writer.Reset changed the slice of extensions the application had spread into SetExtensions")
+			}
+			ww.SetExtensions(exts...)
+			r.Probe("writer_reset_and_extensions_reattached_per_message")
+		}
 		if resetOp {
 			ww.ResetOp(ws.OpCode(m.op))
 			r.Probe("message_announced_with_ResetOp")
@@ -184,6 +201,7 @@ func c13Stack(r *eng.Run) {
 						sendPing()
 						r.Probe("several_control_frames_in_one_gap")
 					}
+
 				}
 			}
 		}
@@ -253,8 +271,49 @@ func c13Stack(r *eng.Run) {
 	r.Note("C13 stack writer client=%v size=%d level=%d msgs=%d wire: %s", client, size, level, len(msgs), (&Stream{Frames: fs}).Describe())
 	r.Res.Nontrivial = true
 
+	// The peer (or whoever shares the connection with the writer) puts a
+	// hundred and more control frames into one gap, wherever the writer
+	// happened to cut the message.
+	wireBytes := wire.Out
+	if manyPings {
+		var cand []int
+		for j, f := range fs {
+			if !ref.IsControl(f.Op) && !f.Fin {
+				cand = append(cand, j)
+			}
+		}
+		if len(cand) > 0 {
+			j := cand[r.T.Int(sim.LCtrl, len(cand))]
+			before := 0
+			for _, f := range fs[:j+1] {
+				if ref.IsControl(f.Op) {
+					before++
+				}
+			}
+			var extra [][]byte
+			var enc []byte
+			for n, tot := 0, 99+r.T.Int(sim.LCtrl, 60); n < tot; n++ {
+				pl := patBytes(uint32(1000+n), 0, r.T.Int(sim.LCtrlLen, 4))
+				pf := &ref.Frame{Fin: true, Op: ref.OpPing, Payload: pl}
+				if client {
+					pf.Masked, pf.Mask = true, drawMask(r)
+				}
+				enc = append(enc, ref.Encode([]*ref.Frame{pf})...)
+				extra = append(extra, pl)
+			}
+			at := fs[j].End
+			wireBytes = append(append(append([]byte(nil), wire.Out[:at]...), enc...), wire.Out[at:]...)
+			pings = append(append(append([][]byte(nil), pings[:before]...), extra...), pings[before:]...)
+			if fs2, rest2, err2 := ref.DecodeAll(wireBytes); err2 == nil && rest2 == 0 {
+				fs = fs2
+			} else {
+				r.Internalf("wire with inserted pings does not decode: rest=%d %v", rest2, err2)
+			}
+			r.Probe("a_hundred_control_frames_in_one_gap")
+		}
+	}
 	// 2. Read back through the reader stack under seeded segmentation.
-	src := NewPipe(r, wire.Out)
+	src := NewPipe(r, wireBytes)
 	src.Marks = MarksOf(fs)
 	src.SegMode = DrawSeg(r)
 	src.EOFWithData = r.T.Chance(sim.LFault, 1, 4) // the last bytes arrive together with io.EOF
@@ -263,7 +322,7 @@ func c13Stack(r *eng.Run) {
 	var gotPings [][]byte
 	curCompressed := false
 	rd := &wsutil.Reader{Source: src, State: rst, Extensions: []wsutil.RecvExtension{&rms}}
-	if len(wire.Out)%3 == 0 {
+	if len(wireBytes)%3 == 0 {
 		// The state attached through the package's function adapter.
 		rd.Extensions = []wsutil.RecvExtension{wsutil.RecvExtensionFunc(rms.UnsetBits)}
 		r.Probe("message_state_through_the_function_adapter")
